@@ -165,6 +165,10 @@ def model(d, pairs):
                 same = False
             if not same:
                 return {"verdict": None, "unspecified": "several-names-unequal-values"}
+            if not all(oracle.equal(vals[0], x) for x in vals[1:]):
+                # equal for `!=` but not the same value (108 and 108.0, True and 1): no conflict is raised, and WHICH of them
+                # stands for the field is the lookup strategies' business (C06) - they convert differently
+                return {"verdict": None, "unspecified": "several-names-equal-but-distinct-values"}
         avail = has_default(f) and not o.get("no_default")
         deferred = avail and (f.get("defer_default") or o.get("defer_default"))
         if not given:
